@@ -11,7 +11,7 @@ classdef BinaryProtocolReader < handle
         function self = BinaryProtocolReader(infile, expected_schema)
             self.stream_ = yardl.binary.CodedInputStream(infile);
             magic_bytes = self.stream_.read_bytes(length(yardl.binary.MAGIC_BYTES));
-            if magic_bytes ~= yardl.binary.MAGIC_BYTES
+            if ~isequal(magic_bytes(:), yardl.binary.MAGIC_BYTES(:))
                 throw(yardl.ProtocolError("Invalid magic bytes"));
             end
 
